@@ -22,7 +22,7 @@ def known():
 def main():
     props = [json.loads(l) for l in open(V + "/properties.jsonl")]
     kf = known()
-    claimed = set(open(V + "/claimed.txt").read().split())
+    claimed = {c["property_id"] for c in json.load(open(V + "/MANIFEST.json"))["checks"]}
     lines = []
     # ---- fixes
     log = subprocess.check_output(["git", "-C", "/repo", "log", "--reverse", "--format=%h %s", "0e9787b..HEAD"], text=True)
